@@ -393,7 +393,12 @@ InsertAll(X, objs, i) ==
 H_Extend(e) ==
     LET s == e.s IN
     /\ Frame(e, {s})
-    /\ NoPanic(e)
+    /\ IF e.big = 1
+       THEN \* a size hint near usize::MAX: the up-front reserve reports capacity overflow (both profiles)
+            /\ Chk("C10,C17", "extend_panics_only_on_overflow", e, Panicked(e) => e.res.class = "capacity_overflow")
+            /\ Chk("C10,C01", "failed_extend_changes_nothing", e,
+                   (Panicked(e) /\ BothFull(e, s)) => Cont(Post(e, s)) = Cont(Pre(s)))
+       ELSE NoPanic(e)
     /\ Chk("C02", "extend_allocs", e, AL(e) <= Len(e.objs) + 2)
     /\ ((e.op = "FromIter" \/ BothFull(e, s)) /\ ~Panicked(e) /\ Alive(e.st, s)) =>
         LET X == InsertAll([E |-> IF e.op = "FromIter" THEN {} ELSE Cont(Pre(s)), drops |-> {}], e.objs, 1) IN
